@@ -357,7 +357,14 @@ def run_case(case):
                 rn = math.sqrt(sum(q * q for q in py[:3])) + 1e-300
                 vn = math.sqrt(sum(q * q for q in py[3:6])) + 1e-300
                 relmax = max(max(abs(py[i] - cv[i]) for i in range(3)) / rn, max(abs(py[i] - cv[i]) for i in range(3, 6)) / vn)
-                if lim and relmax <= 64 * EPS * (1 + abs(kw.get('T', 0) - sim.t) / max(abs(kw.get('P', 1e300)), 1e-300) * 10 + 1e3):
+                # number of orbits between T and now: from P when given, else from the mean motion implied by the returned state
+                Pest = abs(kw['P']) if 'P' in kw else 1e300
+                if 'P' not in kw and 'a' in kw and kw['a'] != 0:
+                    den = 1.0 / rn - 1.0 / (2 * kw['a'])
+                    mu = abs(0.5 * vn * vn / den) if den != 0 else 0.0
+                    nmean = max(math.sqrt(mu / abs(kw['a']) ** 3) if mu > 0 else 0.0, vn / rn)
+                    Pest = 2 * math.pi / nmean if nmean > 0 else 1e300
+                if lim and relmax <= 64 * EPS * (1 + abs(kw.get('T', 0) - sim.t) / max(Pest, 1e-300) * 10 + 1e3):
                     # conversion of P / T amplifies a 1-ulp difference in a or M through the orbit: not bit-identical but rounding level
                     counters['frontend_P_or_T_rounding_only'] = counters.get('frontend_P_or_T_rounding_only', 0) + 1
                 else:
